@@ -246,11 +246,33 @@ func ruleInflCover(p *Prog, r *Report) {
 		castFn := p.Fn("mxj.cast")
 		nCast := 0
 		eachInstr(fn, func(b *ssa.BasicBlock, in ssa.Instruction) {
-			mu, ok := in.(*ssa.MapUpdate)
-			if !ok || !isCastCall(mu.Value, castFn) {
+			if mu, ok := in.(*ssa.MapUpdate); ok && isCastCall(mu.Value, castFn) {
+				nCast++
 				return
 			}
-			nCast++
+			// a cast() result handed to an unexported helper that stores its parameter in the map it builds
+			c, ok := in.(*ssa.Call)
+			if !ok {
+				return
+			}
+			h := staticCallee(&c.Call)
+			if h == nil || !p.InModule(h) || p.Exported(h) || len(h.Blocks) == 0 || h == fn {
+				return
+			}
+			for i, a := range c.Call.Args {
+				if !isCastCall(a, castFn) || i >= len(h.Params) {
+					continue
+				}
+				stored := false
+				for _, ref := range *h.Params[i].Referrers() {
+					if mu, ok := ref.(*ssa.MapUpdate); ok && mu.Value == ssa.Value(h.Params[i]) {
+						stored = true
+					}
+				}
+				if stored {
+					nCast++
+				}
+			}
 		})
 		// at least one attribute site and the text site; and no value taken from the document is stored without cast
 		raw := ""
@@ -389,11 +411,17 @@ func ruleInflFieldSep(p *Prog, r *Report) {
 			continue
 		}
 		ok := false
-		eachInstr(fn, func(b *ssa.BasicBlock, in ssa.Instruction) {
-			if c, isC := in.(*ssa.Call); isC && isCallTo(&c.Call, "strings.Split", "strings.SplitN") && globalOf(c.Call.Args[1]) == g {
-				ok = true
+		// in the function or in the unexported helpers it hands the specification to
+		for f := range p.Reach(fn) {
+			if f != fn && (!p.InModule(f) || p.Exported(f) || len(f.Blocks) == 0 || p.Name(f) == "mxj.getSubKeyMap") {
+				continue // getSubKeyMap parses the sub-key specifications and has its own obligation
 			}
-		})
+			eachInstr(f, func(b *ssa.BasicBlock, in ssa.Instruction) {
+				if c, isC := in.(*ssa.Call); isC && isCallTo(&c.Call, "strings.Split", "strings.SplitN") && globalOf(c.Call.Args[1]) == g {
+					ok = true
+				}
+			})
+		}
 		if ok {
 			r.OK(rule, n, "specifications are split on fieldSep", p.Pos(fn.Pos()), "strings.Split(spec, fieldSep)")
 		} else {
